@@ -26,7 +26,7 @@ func init() {
 			"Added after blind round 8: getSequenceBounds compares every entry with both running bounds (a one-entry file has a maximum). " +
 			"Added after blind round 9: FindWALFiles orders by name only (a comparator that asks the file system, or a reversal, is reported); the counter's monotone-stores obligations are listed here too (a read from n is cut off at the counter).",
 		NotDecided: "equality of replayed and appended sequences for all inputs (the layout agreement plus CRC is its structural part); behaviour with non-monotone sequence numbers.",
-		Rules:      []func(*Ctx, *Reporter){ruleWalHeaderCodec, ruleWalPayloadCodec, ruleWalFragmentation, ruleWalLengthFits, ruleWalCRC, ruleWalFileOrder, ruleWalNoBufferDrop, ruleWalRouteBySize, ruleNoFabrication, ruleReuseNewestOnly, ruleWalReaderNoConstantLimits, ruleExplicitSeqBelowCounter, ruleFragmentsConcatenated, ruleSequenceBoundsIndependent, subRules(ruleWalMonotone, "monotone-stores")},
+		Rules:      []func(*Ctx, *Reporter){ruleWalHeaderCodec, ruleWalPayloadCodec, ruleWalFragmentation, ruleWalLengthFits, ruleWalCRC, ruleWalFileOrder, ruleWalNoBufferDrop, ruleWalRouteBySize, ruleNoFabrication, ruleReuseNewestOnly, ruleWalReaderNoConstantLimits, ruleExplicitSeqBelowCounter, ruleFragmentsConcatenated, ruleSequenceBoundsIndependent, subRules(ruleWalMonotone, "monotone-stores"), ruleDestructiveOps},
 	})
 }
 
